@@ -524,6 +524,9 @@ func overloadCases() []*ProgCase {
 		Impl: func(_ *ref.Evaluator, _ *ref.Ty, x []ref.Arg) *ref.V {
 			return ref.VBool(x[0].V.N > 0 && x[1].V.S != "")
 		}}})
+	env.Put("g1", &ref.V{T: ref.TFun([]*ref.Ty{ref.TStr}, ref.TBool)})
+	env.Put("g2", &ref.V{T: ref.TFun([]*ref.Ty{ref.TList(ref.TNum)}, ref.TNum)})
+	env.Put("g3", &ref.V{T: ref.TFun([]*ref.Ty{ref.TStr, ref.TStr}, ref.TBool)})
 	a, b, k := ref.TVar("a"), ref.TVar("b"), ref.TVar("k")
 	konst := func(s string) func(*ref.Evaluator, *ref.Ty, []ref.Arg) *ref.V {
 		return func(*ref.Evaluator, *ref.Ty, []ref.Arg) *ref.V { return ref.VStr(s) }
@@ -550,6 +553,9 @@ func overloadCases() []*ProgCase {
 		mk("nest", []*ref.Ty{ref.TList(ref.TMap(ref.TStr, a))}, ref.TStr, "nest/list-of-map"),
 		mk("nest", []*ref.Ty{ref.TObj(ref.F("f", ref.TList(a)))}, ref.TStr, "nest/obj-of-list"),
 		mk("nest", []*ref.Ty{a}, ref.TStr, "nest/any"),
+		// higher-order: ap :: a -> (a -> b) -> str ; ap2 :: (a -> b) -> list[a] -> str
+		mk("ap", []*ref.Ty{a, ref.TFun([]*ref.Ty{a}, b)}, ref.TStr, "ap"),
+		mk("ap2", []*ref.Ty{ref.TFun([]*ref.Ty{a, b}, ref.TBool), a, b}, ref.TStr, "ap2"),
 	}
 	n := func(i int) *ref.E { return ref.Num(fmt.Sprint(i), float64(i)) }
 	bot := ref.Subscript(ref.List(), n(0))
@@ -567,6 +573,9 @@ func overloadCases() []*ProgCase {
 		ref.Call("nest", ref.List(ref.List())), ref.Call("nest", ref.List(ref.List(n(1)))), ref.Call("nest", ref.List(ref.List(), ref.List())),
 		ref.Call("nest", ref.List(ref.Map(nil, nil))), ref.Call("nest", ref.List(ref.Map([]*ref.E{ref.Str("k")}, []*ref.E{ref.List()}))),
 		ref.Call("nest", ref.Obj([]string{"f"}, []*ref.E{ref.List()})), ref.Call("nest", ref.Obj([]string{"f"}, []*ref.E{ref.List(n(1))})),
+		ref.Call("ap", n(1), ref.Subscript(ref.Ident("fs"), n(0))), ref.Call("ap", ref.Str("x"), ref.Subscript(ref.Ident("fs"), n(0))),
+		ref.Call("ap", ref.Str("x"), ref.Ident("g1")), ref.Call("ap", n(1), ref.Ident("g1")), ref.Call("ap", ref.List(n(1)), ref.Ident("g2")),
+		ref.Call("ap2", ref.Ident("f1"), n(1), ref.Str("s")), ref.Call("ap2", ref.Ident("f1"), ref.Str("s"), n(1)), ref.Call("ap2", ref.Ident("g3"), ref.Str("s"), ref.Str("t")),
 		ref.Call("nest", ref.Map(nil, nil)), ref.Call("nest", ref.List()), ref.Call("nest", ref.Map([]*ref.E{n(1)}, []*ref.E{ref.Map(nil, nil)})),
 		// documented corner cases of the built-ins
 		ref.Call("len", ref.List()), ref.CallF(ref.FInfix, "==", ref.List(), ref.List()), ref.CallF(ref.FInfix, "==", ref.List(n(1)), ref.List()),
